@@ -62,7 +62,11 @@ var (
 	verifPoolTableOff atomic.Bool
 )
 
-const verifPoolTableMax = 1 << 14
+const (
+	verifPoolTableMax = 1 << 14
+	verifPoisonHead   = 4096
+	verifPoisonStride = 61
+)
 
 // VerifSetYield installs (or, with nil, removes) the function called at the
 // named yield points.
@@ -113,7 +117,18 @@ func verifPoolPut(buffer *bytes.Buffer) {
 	buffer.Reset()
 	raw := buffer.Bytes()
 	raw = raw[:cap(raw)]
-	for i := range raw {
+	// The head is poisoned completely, the rest at a stride: enough for any
+	// payload that still refers to the buffer to come out damaged, without a
+	// cost proportional to the capacity of buffers that once held a large
+	// message (under the race detector every one of these writes is a call).
+	head := len(raw)
+	if head > verifPoisonHead {
+		head = verifPoisonHead
+	}
+	for i := 0; i < head; i++ {
+		raw[i] = VerifPoison
+	}
+	for i := head; i < len(raw); i += verifPoisonStride {
 		raw[i] = VerifPoison
 	}
 	if verifPoolTableOff.Load() {
